@@ -8,11 +8,17 @@ use symcore::*;
 
 pub fn instances(tier: &str) -> Vec<String> {
     let mut v: Vec<String> = ["exp_ln", "exp_laws", "sqrt", "polar", "trig", "trig_quot", "hyp", "hyp_quot", "bridge", "log"].iter().map(|s| s.to_string()).collect();
-    if tier == "thorough" { v.push("pow".into()); v.push("inverse".into()); }
+    v.push("inv_closed_forms".into()); v.push("inv_asin".into()); v.push("inv_acos".into());
+    if tier == "thorough" { v.push("pow".into()); }
     v
 }
 
-pub fn configure(_inst: &str, cfg: &mut Config) { cfg.named_constants = true; }
+pub fn configure(inst: &str, cfg: &mut Config) {
+    cfg.named_constants = true;
+    cfg.real_search = (-4.0, 4.0);
+    // the inverse functions are built from ln and sqrt: sqrt enters through its contract (decided for the real body in `sqrt`)
+    if inst.starts_with("inv_") { cfg.stubs = vec!["csqrt".into()]; cfg.decide_timeout_ms = cfg.decide_timeout_ms.min(1500); }
+}
 
 fn z() -> Sym { Sym::lit(0.0) }
 fn one() -> Sym { Sym::lit(1.0) }
@@ -110,6 +116,52 @@ pub fn body(inst: &str) {
         }
         "log" => {
             must("log_b", || { assume(nonzero(zc)); assume(nonzero(wc)); let lb = wc.ln(); assume(nonzero(lb)); (zc.log(wc), lb, zc.ln()) }, |(l, lb, lz)| ceq("log_b(z) * ln b = ln z", l * lb, lz));
+        }
+        "inv_closed_forms" => {
+            // every inverse function against its textbook principal-value closed form, written independently here from
+            // the library's own ln and sqrt (whose branches are decided above).  Identical term DAGs are discharged
+            // syntactically; anything else goes to the solver and, if it differs anywhere, to concrete replay.
+            let i_unit = Cmplx::new(z(), one());
+            let half = Sym::lit(0.5);
+            assume(nonzero(zc));
+            let inv = cone / zc;
+            let asin_ref = |u: Cmplx| -(i_unit * (i_unit * u + (cone - u * u).sqrt()).ln());
+            let acos_ref = |u: Cmplx| i_unit * (i_unit * u + (cone - u * u).sqrt()).ln() + PI_2;
+            let atan_ref = |u: Cmplx| ((cone - i_unit * u).ln() - (cone + i_unit * u).ln()) * i_unit * half;
+            let asinh_ref = |u: Cmplx| (u + (u * u + one()).sqrt()).ln();
+            let acosh_ref = |u: Cmplx| (u + (u - one()).sqrt() * (u + one()).sqrt()).ln();
+            let atanh_ref = |u: Cmplx| ((u + one()).ln() - (cone - u).ln()) * half;
+            must_off_singularities("asin", || (zc.asin(), asin_ref(zc)), |(l, r)| ceq("asin z = -i ln(iz + sqrt(1 - z^2))", l, r));
+            must_off_singularities("acos", || (zc.acos(), acos_ref(zc)), |(l, r)| ceq("acos z = pi/2 + i ln(iz + sqrt(1 - z^2))", l, r));
+            must_off_singularities("asinh", || (zc.asinh(), asinh_ref(zc)), |(l, r)| ceq("asinh z = ln(z + sqrt(z^2 + 1))", l, r));
+            must_off_singularities("acosh", || (zc.acosh(), acosh_ref(zc)), |(l, r)| ceq("acosh z = ln(z + sqrt(z - 1) sqrt(z + 1))", l, r));
+            must_off_singularities("acsc", || (zc.acsc(), asin_ref(inv)), |(l, r)| ceq("acsc z = asin(1/z)", l, r));
+            must_off_singularities("asec", || (zc.asec(), acos_ref(inv)), |(l, r)| ceq("asec z = acos(1/z)", l, r));
+            must_off_singularities("asech", || (zc.asech(), acosh_ref(inv)), |(l, r)| ceq("asech z = acosh(1/z)", l, r));
+            must_off_singularities("acsch", || (zc.acsch(), asinh_ref(inv)), |(l, r)| ceq("acsch z = asinh(1/z)", l, r));
+            // the logarithmic ones need their arguments away from the branch points
+            must_off_singularities("atan", || { assume(nonzero(cone - i_unit * zc)); assume(nonzero(cone + i_unit * zc)); (zc.atan(), atan_ref(zc)) }, |(l, r)| ceq("atan z = (i/2)(ln(1 - iz) - ln(1 + iz))", l, r));
+            must_off_singularities("atanh", || { assume(nonzero(zc + one())); assume(nonzero(cone - zc)); (zc.atanh(), atanh_ref(zc)) }, |(l, r)| ceq("atanh z = (ln(1 + z) - ln(1 - z))/2", l, r));
+            must_off_singularities("acot", || { assume(nonzero(cone - i_unit * inv)); assume(nonzero(cone + i_unit * inv)); (zc.acot(), atan_ref(inv)) }, |(l, r)| ceq("acot z = atan(1/z)", l, r));
+            must_off_singularities("acoth", || { assume(nonzero(inv + one())); assume(nonzero(cone - inv)); (zc.acoth(), atanh_ref(inv)) }, |(l, r)| ceq("acoth z = atanh(1/z)", l, r));
+        }
+        "inv_acosh" => {
+            must("acosh", || { let a = zc.acosh(); a }, |a| { prove("Re acosh z >= 0 (principal branch)", le(z(), a.real)); prove("Im acosh z in (-pi, pi]", B::and(vec![lt(-PI, a.imag), le(a.imag, PI)])); });
+        }
+        "inv_asinh" => {
+            must("asinh", || { let a = zc.asinh(); (a, a.sinh()) }, |(a, s)| { prove("Im asinh z in (-pi, pi]", B::and(vec![lt(-PI, a.imag), le(a.imag, PI)])); ceq("sinh(asinh z) = z", s, zc); });
+        }
+        "inv_acosh_id" => {
+            must("cosh(acosh)", || { let a = zc.acosh(); a.cosh() }, |c| ceq("cosh(acosh z) = z", c, zc));
+        }
+        "inv_asin" => {
+            must("asin range", || zc.asin(), |a| { prove("Re asin z in [-pi/2, pi/2]", B::and(vec![le(-PI_2, a.real), le(a.real, PI_2)])); });
+        }
+        "inv_acos" => {
+            must("acos range", || zc.acos(), |a| { prove("Re acos z in [0, pi]", B::and(vec![le(z(), a.real), le(a.real, PI)])); });
+        }
+        "inv_atanh" => {
+            must("atanh", || { assume(nonzero(zc + cone)); assume(nonzero(cone - zc)); let a = zc.atanh(); (a, a.tanh()) }, |(a, t)| { prove("Im atanh z in [-pi/2, pi/2]", B::and(vec![le(-PI_2, a.imag), le(a.imag, PI_2)])); ceq("tanh(atanh z) = z", t, zc); });
         }
         "pow" => {
             must("powf", || { assume(nonzero(zc)); (zc.powf(Sym::lit(2.0)), zc * zc) }, |(p, q)| ceq("z^2 via powf = z*z", p, q));
